@@ -16,18 +16,19 @@ func TestVerif(t *testing.T) {
 		ID:    "C18",
 		Level: "model_checking",
 		Rule: "round trip: every credential in {\"\", u, p:q:r, ü, <&>, 64 bytes}^4 (username, password, refresh token, access token; a username with a colon must be refused without touching the file or else round-trip) x 4 address forms " +
-			"(h, h:5000, https://h/v1/, http://h) x every pre-existing document (absent, absent in a missing directory, {}, null, unknown top-level keys of every JSON type, auths entries with unknown fields, credsStore/credHelpers, " +
-			"legacy username/password entries under URL keys, auth fields that are not base64(user:password), pretty-printed 0644 file, empty credsStore, auths:null, null entry): Put, Get, compare file with model, reopen + Get, Delete, compare. " +
-			"histories: every history of 1..4 (thorough 5) operations over {Put a c0, Put a c1, Put b c0, Put b c2, Get a, Get b, Delete a, Delete b, Put a colon-username} for 4 (thorough 6) address pairs x every document; " +
+			"(h, h:5000, https://h/v1/, http://h) x 13 pre-existing documents (absent, absent in a missing directory, {}, null, unknown top-level keys of every JSON type, auths entries with unknown fields, credsStore/credHelpers, " +
+			"legacy username/password entries under URL keys, auth fields that are not base64(user:password), pretty-printed 0644 file, empty credsStore, auths:null, null entry): Put, Get, compare file with model, reload + Get, Delete, compare. " +
+			"histories: every history of 1..4 (thorough 1..5) operations over {Put a c0, Put a c1, Put b c0, Put b c2, Get a, Get b, Delete a, Delete b, Put a colon-username} for 4 address pairs x every document; " +
 			"every answer is compared with a JSON-document model (Get = what was put / what the docker format says a pre-existing entry means; Delete removes that key only); after the last operation the file must be one complete JSON object equal to the model " +
 			"(every other top-level key and every other entry equal as JSON values, numbers exactly), have mode 0600 when it was rewritten, and load into a fresh store that answers like the model. " +
-			"crash: the last operation of every such history is interrupted before each of its mutating file-system operations in turn (mkdir, create-temp, fchmod, write, rename); the file at the config path must be the old or the new complete document. " +
-			"concurrent: 3 goroutines x one operation each, every multiset of {Put a c0, Put a c1, Put b c2, Delete a, Get a} x 3 initial documents x 2 address pairs, all schedules within the deviation bound around 3 default schedulers; " +
+			"crash: the last operation of every such history of length <= 3 (thorough <= 4) is interrupted before each of its mutating file-system operations in turn (mkdir, create-temp, fchmod, write, rename); the file at the config path must be the old or the new complete document (new: mode 0600). " +
+			"concurrent: 3 goroutines x one operation each, every multiset of {Put a, Put b, Delete a, Get a} except three Gets (repeated Puts carry different credentials) x 3 (thorough 6) document/address-pair combinations, all schedules with at most 2 (thorough 3) deviations from each of 3 default schedulers; " +
 			"final file = model after some permutation, every Get answer = what some permutation allows at that point. " +
-			"non-trivial = distinct (document, addresses, history) with an effective mutation on a document that has something else to preserve, distinct crash point after the first mutating operation, distinct round-trip case with a special credential part, distinct non-default schedule",
+			"strace-conformance: 5 scripted histories run by an uninstrumented driver under strace - mutating system calls = shim log, and a real SIGKILL at entry of every one of them leaves the tree the shim's freeze leaves. " +
+			"non-trivial = distinct (document, addresses, history) with an effective mutation on a document that has something else to preserve, distinct crash point after the first mutating operation, distinct round-trip case with an empty/colon/non-ASCII/markup credential part, distinct non-default schedule",
 		Assumptions: []string{
 			"process-kill crash model: kernel state = the system calls that completed; power loss / unsynced pages are outside the property",
-			"the vos shim issues the same mutating system-call sequence as package os (job strace-conformance compares the shim's log of a save with strace of the same save when strace/ptrace is available)",
+			"the vos shim issues the same mutating system-call sequence as package os and its freeze equals a kill at that call (checked by job strace-conformance on 5 histories whenever strace, ptrace and the toolchain are available; otherwise counted as strace_conformance_skipped)",
 			"a credsStore key whose value is the empty string is treated as equal to an absent key (docker's own omitempty convention); counted, not judged",
 			"which entry Get returns when no exact key exists and several legacy URL keys name the host is not specified; any of them, or the empty credential, is accepted",
 			"object key order and whitespace of the file are not part of 'preserved'; values are compared as JSON values with numbers compared exactly",
